@@ -6,6 +6,21 @@ import subprocess
 HOOK_COMMITS = ["62329dc"]
 
 CHECKS = {
+    "C01": dict(
+        technique="differential runtime oracle: parse() of the real build vs CPython 3.11 ast on corpus, grammar-directed generator, soft-keyword/operator rewrites and PEP 695 erasure programs; known-finding predicates on the disagreement",
+        text="Every text the reference accepts (and that lies inside the property's quantifier) is parsed in module, interactive and expression "
+             "mode and the canonical trees are compared field by field; evidence reports node kinds, soft-keyword placements and LR productions "
+             "actually reduced (hook H1). Held-on-what-was-executed; never-reduced productions are listed.",
+        note="Trusted: CPython 3.11 ast, the generic Debug->JSON converter, the thin normalisation in mon/pyref.py (validated on 5M library nodes), the PEP 695 erasure oracle (mon/pep695.py).",
+        design="§2 C01"),
+    "C02": dict(
+        technique="runtime range monitors: structural range invariants + equality with CPython extents + slice-reparse (metamorphic) on every/sampled node of valid programs in hostile layouts",
+        text="Three monitors over each successfully parsed valid program (all-nodes-with-ranges build): structural invariants of the range tree, "
+             "equality with the reference's extents for positioned kinds, and slice-reparse of source[range] in a context template for all kinds "
+             "(the oracle for arguments, with-items, match cases, comprehensions, type parameters). Programs are also rendered in CRLF/CR/BOM/"
+             "continuation/comment/re-indented/parenthesised layouts.",
+        note="Trusted: CPython positions (except inside f-string fields, where the reference's substring-search locator is arbitrated by slice-reparse), the context templates.",
+        design="§2 C02"),
     "C15": dict(
         technique="in-process invariant monitor against a naive reference model, exhaustive small scope + seeded random",
         text="Every query of the line index, source-code view, universal-newline iterators (all next/next_back interleavings) and "
